@@ -39,9 +39,14 @@ TRUSTED_BASE = [
 
 
 def repo_python_path():
-    """Make `import uwg` resolve to the working tree under test."""
+    """Make `import uwg` resolve to the working tree under test (once per process: the package
+    must NOT be re-imported between operations, or in-process interference would be masked)."""
     if REPO not in sys.path[:1]:
         sys.path.insert(0, REPO)
+    cur = sys.modules.get('uwg')
+    if cur is not None and os.path.dirname(os.path.dirname(os.path.abspath(cur.__file__))) == \
+            os.path.abspath(REPO):
+        return
     for name in [n for n in sys.modules if n == 'uwg' or n.startswith('uwg.')]:
         del sys.modules[name]
 
